@@ -685,6 +685,17 @@ def stage_accumulator(ctx):
             bad = "running mean/std depend on the order of pushes"
         if bad:
             ctx.violation("accumulator:batch", bad, dict(kind="accumulator", pushes=xs, order=perm, mean=mv, std=sv))
+        # queried after EVERY push (a running display): each answer equals the batch value of what was pushed so far
+        acc3 = Accumulator()
+        for j, x in enumerate(xs):
+            acc3.push(np.array(x))
+            mj, sj = acc3.mean(), acc3.std()
+            Aj = np.array(xs[:j + 1])
+            if np.abs(np.asarray(mj) - Aj.mean(axis=0)).max() > 1e-12 * scale or np.abs(np.asarray(sj) - Aj.std(axis=0)).max() > 1e-9 * scale:
+                ctx.violation("accumulator:interleaved", "mean()/std() queried after push number %d (and after every earlier push) differ from "
+                              "the batch values of the data pushed so far" % (j + 1),
+                              dict(kind="accumulator", pushes=xs, upto=j + 1, mean=np.asarray(mj).tolist(), std=np.asarray(sj).tolist()))
+                break
         if kind == "image":
             md = meta_diff(mk([xs[0]], 0.5), acc.mean())
             if md:
